@@ -506,12 +506,14 @@ def viewLen (t : Ty) (n : Node) : Option Nat :=
   | _ => none
 
 inductive POp where
-  | read | elem (i : Nat) | len | bytes | root | mut (op : HOp) | slice (a b : Nat)
+  | read | elem (i : Nat) | len | bytes | root | mut (op : HOp) | slice (a b : Nat) | nav (g : Nat)
 
 def toPOp : Sexp → Option POp
   | .list [.atom "read"] => some .read
   | .list [.atom "elem", i] => (atomNat i).map .elem
   | .list [.atom "len"] => some .len
+  | .list [.atom "iter"] => some .read
+  | .list [.atom "nav", g] => (atomNat g).map .nav
   | .list [.atom "slice", a, b] => do pure (.slice (← atomNat a) (← atomNat b))
   | .list [.atom "bytes"] => some .bytes
   | .list [.atom "root"] => some .root
@@ -530,6 +532,7 @@ def runPOps (t : Ty) (n0 : Node) (ops : List POp) (key : String) : List String :
         | .read => (n, okStr ((Impl.readVal H t n).map valStr))
         | .elem i => (n, okStr ((readElem t n i).map valStr))
         | .len => (n, okStr ((viewLen t n).map toString))
+        | .nav g => (n, okStr ((getter n g).map fun m => hexOf (m.root H)))
         | .slice a b =>
           -- an in-range slice (both bounds reduced modulo the current length) = the element reads in order
           (n, okStr ((viewLen t n).bind fun ln =>
@@ -592,6 +595,7 @@ def runCase (xs : List Sexp) : Option String :=
   | [.atom "val", t, v] => do pure (runVal (← toTy t) (← toVal v))
   | [.atom "type", t] => do pure (runType (← toTy t))
   | .atom "hist" :: t :: v :: ops => do pure (runHist (← toTy t) (← toVal v) (← ops.mapM toHOp))
+  | .atom "histf" :: t :: v :: ops => do pure (runHist (← toTy t) (← toVal v) (← ops.mapM toHOp))
   | .atom "store" :: t :: v :: ops => do pure (runStore (← toTy t) (← toVal v) (← ops.mapM toSOp))
   | .atom "partial" :: t :: v :: .list (.atom "pos" :: gs) :: ops => do
     pure (runPartial (← toTy t) (← toVal v) (← gs.mapM atomNat) (← ops.mapM toPOp))
